@@ -76,6 +76,12 @@ class GListT(T):
         self.elem, self.maxlen = elem, maxlen
 
 
+class FixedListT(T):
+    """Python list of a fixed, known length (e.g. the per-read-end pairs [x, y] of the statistics)."""
+    def __init__(self, elem=Int, n=2):
+        self.elem, self.n = elem, n
+
+
 class CArrT(T):
     """C array / pointer: element arrays (one per struct field when `fields` is given), symbolic buffer length."""
     def __init__(self, name, fields=None, byte=False):
@@ -133,6 +139,8 @@ def mk(t, name, inv):
     if isinstance(t, DictIntT):
         from .values import DictIntV
         return DictIntV(fresh(name + ".has", z3.ArraySort(I, B)), fresh(name + ".val", AII))
+    if isinstance(t, FixedListT):
+        return ListV((z3.BoolVal(True), mk(t.elem, f"{name}[{k}]", inv)) for k in range(t.n))
     if isinstance(t, GListT):
         n = fresh(name + ".len", I)
         inv.append(z3.And(0 <= n, n <= t.maxlen))
